@@ -23,6 +23,7 @@ pub mod c12;
 pub mod pattern_model;
 pub mod c13;
 pub mod c17;
+pub mod c19;
 pub mod c20;
 pub mod childproc;
 
@@ -59,6 +60,7 @@ pub fn dispatch(prop: &str, tier: &str, seed: u64, only: Option<(String, u64)>) 
         "C12" => c12::run(&mut rep),
         "C13" => c13::run(&mut rep),
         "C17" => c17::run(&mut rep),
+        "C19" => c19::run(&mut rep),
         "C20" => c20::run(&mut rep),
         _ => {
             eprintln!("unknown property {}", prop);
